@@ -156,3 +156,37 @@ func VerifC17_SlowStorage() {
 	lfs.before = nil
 	verif.Assert("release", A.unlock(ctx) == nil)
 }
+
+// VerifC17_TransientHeartbeatFault: one backend operation of the heartbeat
+// writer fails once (EMFILE, ENOSPC, EIO ...): the holder is alive, so its lock
+// must still never look stale afterwards -- the next beat repairs the damage.
+func VerifC17_TransientHeartbeatFault() {
+	lfs, cs := vLockSetup(false)
+	A, B := cs[0], cs[1]
+	ctx := context.Background()
+	verif.Assert("acquire", A.tryLock(ctx) == nil)
+	lockDir := A.lock.lockPath()
+	failAt := verif.Len("failAt", 1, 24) // the k-th operation below the lock directory from now on
+	count := 0
+	lfs.before = func(op *vOp) error {
+		below := len(op.path) > len(lockDir) && op.path[:len(lockDir)] == lockDir
+		if below && op.name != "Close" {
+			count++
+			if count == failAt {
+				return pathErr(op.name, op.path, syscall.EIO)
+			}
+		}
+		return nil
+	}
+	for k := 0; k < 8; k++ {
+		verif.Advance(vPeriod)
+		// the observer's own probes must not be the ones that fail: count only while it is not looking
+		saved := lfs.before
+		lfs.before = nil
+		stale := B.lock.IsStale()
+		lfs.before = saved
+		verif.Assert("live_lock_not_stale", !stale)
+	}
+	lfs.before = nil
+	verif.Assert("release", A.unlock(ctx) == nil)
+}
